@@ -272,6 +272,7 @@ package main
 //@   call io.Copy
 //@     assert[C19:body-relayed-from-the-same-response] commits == 1 && arg0 == w && arg1 == response.Body
 //@   loop 1
+//@     at for k, v := range response.Header
 //@     assigns mapof(asHeader(rwHeader[w]))
 //@     invariant[C19:fwd-state] response != nil && rwHeader[w] != nil && response.Header != asHeader(rwHeader[w]) && commits == 0
 //@     invariant[C19:fwd-copied] forall_str(k, visited[k] ==> in(k, asHeader(rwHeader[w])) && asHeader(rwHeader[w])[k] == response.Header[k])
